@@ -228,6 +228,7 @@ type loopDesc struct {
 	ord    int
 	blocks map[*ssa.BasicBlock]bool
 	wild   bool                // calls / stores through non-local pointers
+	arrs   bool                // stores into slice elements (backing arrays only)
 	stored map[*ssa.Alloc]bool // non-escaping allocs stored to in the loop
 }
 
@@ -280,6 +281,8 @@ func (p *Prog) loopInfo(fn *ssa.Function) *loopInfo {
 				case *ssa.Store:
 					if a := rootAlloc(x.Addr); a != nil && !li.escapes[a] {
 						ld.stored[a] = true
+					} else if ia, ok := x.Addr.(*ssa.IndexAddr); ok && isSliceOfScalars(ia.X.Type()) {
+						ld.arrs = true
 					} else {
 						ld.wild = true
 					}
@@ -441,4 +444,13 @@ func (p *Prog) callIsPure(c *ssa.CallCommon) bool {
 		return true
 	}
 	return p.CS.isPure(n)
+}
+
+func isSliceOfScalars(t types.Type) bool {
+	sl, ok := under(t).(*types.Slice)
+	if !ok {
+		return false
+	}
+	_, ok = scalarWidth(sl.Elem())
+	return ok
 }
